@@ -23,7 +23,7 @@ RULE = ('generated class models whose values are unambiguous under the documente
         'YAML syntax, non-finite floats, dates and datetimes, paths, enum members, string-like objects and '
         'keys, extra attributes, shared sub-objects); load(dumps(value)) must be structurally equal.  '
         'Non-trivial = the value contains a user object, a container, or an adversarial string.'
-        'Directed families: a class with a Dict[<string-like>, V] attribute; three-level'
+        ' Directed families: a class with a Dict[<string-like>, V] attribute; three-level'
         ' registered chains with inverse, non-idempotent unit-converting hooks.')
 ASSUMPTIONS = ['str(C(s)) == s for the generated string-like classes',
                'PyYAML\'s emitter/scanner round-trip scalar content and quote what would resolve differently']
